@@ -81,6 +81,19 @@ def special_programs():
         [["out", ["bin", "truediv", ["bin", "add", z, z], ["bin", "sub", z, ["py", 7]]]]],
         [["out", ["bin", "add", ["astype", z, "float32"], ["astype", ["bin", "mul", z, z], "float64"]]]],
     ]
+    # same-form twins: nodes with identical scalar expressions over *different* operands (a strategy that emits or caches
+    # something per expression form must not confuse them), also under different ranks and as separate outputs
+    a, b, c, d = (ph(n, (3,), "float64") for n in "abcd")
+    a2, b2 = ph("p", (2, 3), "float64"), ph("q", (2, 3), "float64")
+    i1, i2, i3, i4 = (ph(n, (3,), "int32") for n in "ijkl")
+    progs += [
+        [["out", ["bin", "mul", ["bin", "sub", a, b], ["bin", "sub", c, d]]]],
+        [["o1", ["bin", "sub", a, b]], ["o2", ["bin", "sub", c, d]], ["o3", ["bin", "sub", b, a]]],
+        [["out", ["bin", "add", ["red", "sum", ["bin", "mul", a, b], None], ["red", "sum", ["bin", "mul", c, d], None]]]],
+        [["out", ["bin", "add", ["bin", "sub", a2, b2], ["bin", "sub", a, b]]]],
+        [["out", ["bin", "sub", ["bin", "mul", i1, i2], ["bin", "mul", i3, i4]]]],
+        [["out", ["where", ["cmp", "less", a, b], ["fn", "sin", c], ["fn", "sin", d]]]],
+    ]
     return progs
 
 
